@@ -84,18 +84,20 @@ class OperatorTemplate(AbstractBaseTemplate):
                 pass  # pass equations string to constructor
             # else, update according to predefined rules, assuming dict structure
             elif isinstance(equations, dict):
-                new_eqs = equations.pop('add', [])
+                equations = dict(equations)  # the caller's (or the YAML cache's) edit dictionary is left untouched
+                new_eqs = list(equations.pop('add', []))
                 equations = [_update_equation(eq, **equations) for eq in self.equations] + new_eqs
             else:
                 raise TypeError("Unknown data type for attribute 'equations'.")
         else:
             # copy equations from parent template
-            equations = self.equations
+            equations = list(self.equations)
 
         if variables:
             variables = _update_variables(self.variables, variables)
         else:
-            variables = self.variables
+            # a copy: the derived template must not share (and below prune) the parent's variable definitions
+            variables = dict(self.variables)
 
         rogue_variables = set()
         for var in variables:
